@@ -137,7 +137,7 @@ Property P_C04 = { "C04", c04_init, c04_run,
   { C04_CHECKS("int_to_fixed", j_int_to_fixed, "fixed_t{n}, arithmetic_to_fixed, make_fixed, integral_to_fixed, 0+n, n+0 (and _fix literal for int64); a = value of the type"),
     C04_CHECKS("fixed_to_int", j_fixed_to_int, "static_cast<T>, fixed_to_integral<T>, fixed_to_arithmetic<T>; a = finite raw"),
     C04_CHECKS("int_roundtrip", j_int_roundtrip, "n -> fixed_t -> T for |n| <= 2^31-1"),
-    { "reassign", judge_reassign, "static_cast<T>(x) twice in one function with x modified in between (int32, int64, uint16, double, float); c = shape 8..12" } },
+    { "reassign", judge_reassign, "static_cast<T>(x) twice in one function with x modified in between (int32, int64, uint16, double, float); c = shape 8..12", true } },
   { "int-in-range", "int-out-of-range", "floor-representable", "floor-not-representable", "negative-fraction-to-int", "int-roundtrip" },
   "integer within 2 of +-(2^31-1), 0, or out of range; fixed value whose floor is within 2 of a limit of the target type or a negative fraction; distinct by (value,type)",
   { "every value of int8,uint8,int16,uint16 (int->fixed, round trip)" }, { "every value of int8,uint8,int16,uint16,int32,uint32 (int->fixed)", "every raw in [-2^24,2^24] -> 8/16-bit targets" } };
@@ -477,8 +477,8 @@ void c16_run(Ctx & c)
   }
 Property P_C16 = { "C16", c16_init, c16_run,
   { { "mixed_i8", j_mixed<0>, "a op t, t op a, a op= t for op in + - * /; a = finite raw, b = scalar (value / IEEE bits)" }, { "mixed_i16", j_mixed<1>, "" }, { "mixed_i32", j_mixed<2>, "" }, { "mixed_i64", j_mixed<3>, "" },
-    { "mixed_u8", j_mixed<4>, "" }, { "mixed_u16", j_mixed<5>, "" }, { "mixed_u32", j_mixed<6>, "" }, { "mixed_u64", j_mixed<7>, "" }, { "mixed_f32", j_mixed<8>, "" },
-    { "mixed_f64", j_mixed<9>, "double operand: result bits against IEEE arithmetic on double(a) and t in written order (no compound forms exist)" },
+    { "mixed_u8", j_mixed<4>, "" }, { "mixed_u16", j_mixed<5>, "" }, { "mixed_u32", j_mixed<6>, "" }, { "mixed_u64", j_mixed<7>, "" }, { "mixed_f32", j_mixed<8>, "", true },
+    { "mixed_f64", j_mixed<9>, "double operand: result bits against IEEE arithmetic on double(a) and t in written order (no compound forms exist)", true },
     { "const_scalar", j_const_scalar, "a*K, K*a, a*=K, a/K, a/=K with a literal integer K at the call site use the integer exactly; a raw, b index of K" },
     { "mixed_ll", j_mixed<10>, "long long operand (distinct from int64_t)" }, { "mixed_ull", j_mixed<11>, "unsigned long long operand" } },
   { "literal-integer-operand", "integer-exact-path", "integer-beyond-2^31", "promoted-path", "double-operand", "double-special" },
@@ -708,7 +708,7 @@ void j_angle_fn(Ctx & c, int64_t d, int64_t, int64_t)
       {
       int64_t arg;
       if(k < 8 || k >= 10) { const IntType & t = INT_TYPES[k < 8 ? k : k - 2]; if((i128)d < t.lo || (i128)d > t.hi) continue; arg = d; }
-      else if(k == 8) arg = f2bits((float)d);
+      else if(k == 8) { if(c.fe_mode) continue; /* the float carrier is converted with floating-point arithmetic: legitimately rounding-mode dependent */ arg = f2bits((float)d); }
       else arg = d * 65536;
       CallRes a = c.call(SINA[k].f[ci], arg, 0), b = c.call(COSA[k].f[ci], arg, 0), t = c.call(TANA[k].f[ci], arg, 0);
       if(a.sig || b.sig || t.sig) { c.signal_event((int)ci, SINA[k].entry.c_str(), arg, 0, a.sig ? a.sig : (b.sig ? b.sig : t.sig)); continue; }
